@@ -133,9 +133,28 @@ def run_shard(shard, out_base):
                     if ch == pool[(pool.index(b[p]) + 1) % len(pool)]:
                         # the same mutant handed over as an unvalidated IBAN object (still a text)
                         ow = observe(lambda t=t: S.IBAN(S.IBAN(t, allow_invalid=True)))
+                        osub = observe(lambda t=t: judge.subclasses()["HelperIBAN"](t))
                         mon.tally("mutants_as_objects")
+                        if osub.ok:
+                            mon.viol("substitution_accepted:through_user_subclass", {"base": b, "mutant": t, "pos": p}, "rejected", osub.brief())
                         if ow.ok:
                             mon.viol("substitution_accepted:passed_as_unvalidated_object", {"base": b, "mutant": t, "pos": p}, "rejected", ow.brief())
+                if b is bases[0] or p % 5 == 0:
+                    # "a different character of the same kind" also covers digits / letters of other scripts
+                    if k == "d":
+                        alts = [chr(0x0660 + int(b[p])), chr(0x06F0 + int(b[p])), chr(0xFF10 + int(b[p])), chr(0x0966 + (int(b[p]) + 1) % 10), chr(0x1D7CE + int(b[p]))]
+                    else:
+                        alts = [chr(0xFF21 + R.UPPER.index(b[p])), {"A": "\u0391", "B": "\u0392", "E": "\u0395", "K": "\u212a", "O": "\u039f", "P": "\u0420"}.get(b[p], "\u00c9")]
+                    for ch2 in alts:
+                        t2 = b[:p] + ch2 + b[p + 1 :]
+                        for kw2 in ({}, {"validate_bban": True}):
+                            o2 = observe(S.IBAN, t2, **kw2)
+                            mon.ev()
+                            mon.tally("other_script_substitutions")
+                            if o2.ok:
+                                mon.viol("substitution_accepted:other_script_character", {"base": b, "mutant": t2.encode("unicode_escape").decode(), "pos": p}, "rejected", o2.brief())
+                            elif not judge.is_lib_exc(o2.exc):
+                                mon.viol(f"escape:{o2.exc_name}", {"base": b, "mutant": t2.encode("unicode_escape").decode()}, "library error", o2.brief())
                 if p + 1 < len(b) and b[p] != b[p + 1] and kind(b[p]) == kind(b[p + 1]):
                     t = b[:p] + b[p + 1] + b[p] + b[p + 2 :]
                     o = observe(S.IBAN, t)
